@@ -22,8 +22,12 @@ THEOREMS = ['Props.C13.' + t for t in [
     'timing_iff_not_reset', 'variables_to_13_decimals', 'porosity_to_9_decimals', 'integers_exact', 'num_variables_needed',
     'name_written_then_read', 'name_read_then_written', 'fixed_names_have_no_blank',
     'rewrite_real_stable_partial', 'fmtE_reprint_stable', 'excluded_reduced_precision_carry', 'excluded_header_double_rounding',
-    'header_ok', 'incon_write_fixpoint_partial']]
-LEVEL_TEXT = ('Proof: 22 Lean theorems (no sorry) about the executable model of t2incon.read/write. Core: incon_roundtrip_partial - for EVERY '
+    'header_ok', 'incon_write_fixpoint_partial',
+    'real_field_shapes', 'variable_full_precision_iff', 'field15_full_precision_iff', 'fits20_13_of_magnitude', 'fits15_9_of_magnitude',
+    'no_precision_lost_iff', 'incon_write_fixpoint_values_partial', 'incon_write_fixpoint_untimed_partial',
+    'header_types', 'written_lines_clean', 'read_any_line_ends_partial', 'write_fixpoint_any_line_ends_partial',
+    'canonical_name_has_5', 'blockWF_of_canonical', 'excluded_plus_name']]
+LEVEL_TEXT = ('Proof: 37 Lean theorems (no sorry) about the executable model of t2incon.read/write. Core: incon_roundtrip_partial - for EVERY '
               'well-formed initial-conditions object (any number of blocks with distinct canonical valid names, n >= 1 real variables per block '
               'with num_variables = n or n <= 4, porosity / nseq-nadd / permeability triples present or absent per block, TOUGH2 or TOUGHREACT, '
               'timing present or absent, reset on or off, either conversion dictionary) whose write succeeds, a fresh read of the written lines '
@@ -34,13 +38,26 @@ LEVEL_TEXT = ('Proof: 22 Lean theorems (no sorry) about the executable model of 
               'invalid names and TOUGHREACT without permeabilities (both known findings, with machine-checked witnesses excluded_*); (2) "writing '
               'it again reproduces the file" is proved for the whole file as incon_write_fixpoint_partial under NoPrecisionLost (no value needed '
               'the width guard, header time stable), values handed back as exact decimals (A-float); the two excluded classes are witnessed '
-              '(excluded_reduced_precision_carry, excluded_header_double_rounding) and are known findings. The split of the text into lines is '
-              'modelled and tied, not proved.')
+              '(excluded_reduced_precision_carry, excluded_header_double_rounding) and are known findings. '
+              'NoPrecisionLost is characterised on the VALUES: real_field_shapes (decide over the table: value fields 20.13e, all other real fields 15.9e); '
+              'variable_full_precision_iff - a variable keeps its 13 decimals iff it is >= 0 with a printed exponent of <= 3 digits or < 0 with a 2-digit one; '
+              'field15_full_precision_iff - porosity/permeability/tstart/sumtim keep 9 decimals iff >= 0 with a 2-digit printed exponent; '
+              'fits20_13_of_magnitude / fits15_9_of_magnitude - sufficient pure magnitude bounds (0 or 1e-99 <= |r| < 1e99; for r >= 0 in 20.13e: 1e-999 <= r < 1e999, i.e. every non-negative double); '
+              'no_precision_lost_iff - NoPrecisionLost <-> ValuesFit (those classes for every written real) and HeaderStable; '
+              'incon_write_fixpoint_values_partial - the fixpoint with ValuesFit + HeaderStable instead of a hypothesis on the written text; '
+              'incon_write_fixpoint_untimed_partial - without timing or with reset only ValuesFit remains. HeaderStable (12.6e header time printed alike for the in-memory and the re-read sumtim) is still an explicit hypothesis, not characterised on the value. '
+              'written_lines_clean - every line write emits for a well-formed object is text without LF/CR followed by one LF (numbers print as digits/sign/./e/blanks; '
+              'names accepted by valid_blockname consist of characters of the generated tables, decide: none is a line end; header_types: decide over the table); '
+              'read_any_line_ends_partial - hence the text of the written file splits (splitLines, universal newlines) into exactly the written lines, also after replacing every LF '
+              'by CRLF or by CR, and read returns the same object for all three texts (partial only through InconWF); write_fixpoint_any_line_ends_partial - the second generation '
+              'from the CRLF text is the original lines. Well-formedness: canonical_name_has_5 / blockWF_of_canonical - the 5-character hypothesis follows from Canonical (BlockWF without it); '
+              'excluded_plus_name - the no-+++ hypothesis is NOT redundant: the valid canonical name "+++ 1" is written but ends the block loop on read (model witness; same on the real code, not yet replayed by the harness). NOT proved: that splitLines is what Python text mode does (tied by the correspondence); HeaderStable as a value class; '
+              'that write succeeds (hypothesis of all theorems: an integer wider than its 5d/6d/3d field raises) is not derived from bounds on the values.')
 LEVEL_NOTE = ('Tie: Gen/Specs.lean + Gen/Conventions.lean regenerated every run; compiled model vs real write (bytes), read (canonical dump, incl. '
               'hand-made simulator-style files with CRLF/D exponents/short lines and the 7 shipped files) and second-generation write (bytes, '
               'through an exact model of float() rounding validated against CPython). Trusted: Lean kernel, the models, A-float for the '
               'theorems (they carry exact decimals), harness and oracle. The model works on the list of lines; the split of the text into '
-              'lines (universal newlines) is modelled in splitLines and tied by the correspondence, not proved.')
+              'lines (universal newlines) is modelled in splitLines (tied by the correspondence) and proved to invert write for LF, CRLF and CR line ends.')
 TECHNIQUE = 'Lean 4 proof over an executable model of t2incon.read/write + translators + differential correspondence on files'
 ASSUMPTIONS = ['A-float: decimal -> double by CPython float() is correctly rounded; a decimal of <= 15 significant digits survives decimal->double->decimal',
                'ASCII text only', 'the timing dictionary carries all five keys (as read() creates it)']
